@@ -80,6 +80,34 @@ fn run(name: &str, j: &J) -> Result<bool, String> {
             println!("  expr = {}\n  on count={} sum={} sum_square={}: got {} want {}", expr, n, sx, sq, g, want);
             Ok((g - want).abs() <= 1e-9 * (1. + want.abs()))
         }
+        // C07: declared size of a join versus the rows of a concrete instance (rows counted by the definition of the join)
+        "c07_join_size" => {
+            use qrlew::relation::{Constraint, Join};
+            let lk: Vec<i64> = j["left_keys"].as_array().unwrap().iter().map(|x| x.as_i64().unwrap()).collect();
+            let rk: Vec<i64> = j["right_keys"].as_array().unwrap().iter().map(|x| x.as_i64().unwrap()).collect();
+            let op = j["op"].as_str().unwrap();
+            let uniq = |ks: &Vec<i64>| { let mut s = ks.clone(); s.sort(); s.dedup(); s.len() == ks.len() };
+            let mk = |name: &str, ks: &Vec<i64>| -> std::sync::Arc<Relation> {
+                let schema: Schema = vec![("a", DataType::integer(), if uniq(ks) { Some(Constraint::Unique) } else { None })].into_iter().collect();
+                std::sync::Arc::new(Relation::table().name(name).schema(schema).size(ks.len() as i64).build())
+            };
+            let (t1, t2) = (mk("table1", &lk), mk("table2", &rk));
+            let b = Relation::join().name("join");
+            let b = match op { "inner" => b.inner(Expr::val(true)), "left_outer" => b.left_outer(Expr::val(true)), "right_outer" => b.right_outer(Expr::val(true)), "full_outer" => b.full_outer(Expr::val(true)), _ => return Err("op".into()) };
+            let join: Join = b.on_eq("a", "a").left(t1).right(t2).build();
+            let declared_max = *join.size().max().ok_or("no max")?;
+            // rows by definition
+            let mut rows = 0i64;
+            let mut right_matched = vec![false; rk.len()];
+            for l in &lk {
+                let mut m = 0;
+                for (k, r) in rk.iter().enumerate() { if l == r { m += 1; right_matched[k] = true; } }
+                rows += if m == 0 && (op == "left_outer" || op == "full_outer") { 1 } else { m };
+            }
+            if op == "right_outer" || op == "full_outer" { rows += right_matched.iter().filter(|x| !**x).count() as i64; }
+            println!("  {} join of keys {:?} and {:?}: {} rows, declared size {}", op, lk, rk, rows, join.size());
+            Ok(rows <= declared_max)
+        }
         _ => Err(format!("unknown replay `{}`", name)),
     }
 }
